@@ -17,6 +17,8 @@ def engines_of(text):
     return re.findall(r'^\s*\("(\w+)",\s*([\w.]+)\),?\s*$', text, re.M)
 
 
+if git('status', '--porcelain', '--untracked-files=no').strip():
+    print('working tree is dirty: commit first'); sys.exit(2)
 ours = git('show', 'HEAD:lean/Main.lean')
 theirs = git('show', br + ':lean/Main.lean')
 print(git('merge', '--no-commit', br, check=False)[-1500:])
